@@ -117,8 +117,9 @@ def run_one(cfg, ch, acc):
     files = {}
     app_map = {}
     want = {}          # (chip, core) -> file contents
-    for name, targets in m:
-        path = binary(name, cfg["size"])
+    for bi, (name, targets) in enumerate(m):
+        # binaries of one load differ in length (and in number of blocks)
+        path = binary(name, cfg["size"] + bi * (cfg["buffer"] + 4))
         files[name] = open(path, "rb").read()
         app_map[path] = {tuple(c): set(ps) for c, ps in targets.items()}
         for c, ps in targets.items():
